@@ -611,10 +611,32 @@ let run_pins toks =
   | None -> "ok"
   | Some i -> "hit@" ^ string_of_n i
 
+(* inflight P P M0 K0 M1 F1 C0 ...  (P push, M mark_in_flight, K sq.push ok (ghost), F sq.push failed,
+   C completion); the drop comes last -> complete=<bits> bufs=<F|L per buffer> *)
+let run_inflight toks =
+  let st = ref InFlight.ifinit in
+  let comp = Stdlib.Buffer.create 16 in
+  Stdlib.List.iter (fun t ->
+      let idx () = Nat_conv.nat_of_int (int_of_string (Stdlib.String.sub t 1 (Stdlib.String.length t - 1))) in
+      let ev = match t.[0] with
+        | 'P' -> InFlight.Push
+        | 'M' -> InFlight.MarkInFlight (idx ())
+        | 'K' -> InFlight.SqPushOk (idx ())
+        | 'F' -> InFlight.SqPushFail (idx ())
+        | 'C' ->
+          let i = idx () in
+          Stdlib.Buffer.add_char comp (if Stdlib.List.nth_opt !st.InFlight.inflight (int_of_string (Stdlib.String.sub t 1 (Stdlib.String.length t - 1))) = Some true then '1' else '0');
+          InFlight.Complete i
+        | _ -> failwith ("bad inflight token " ^ t) in
+      st := InFlight.ifstep !st ev) toks;
+  st := InFlight.ifstep !st InFlight.DropAll;
+  "complete=" ^ Stdlib.Buffer.contents comp ^ " bufs=" ^
+  Stdlib.String.concat "" (Stdlib.List.map (function InFlight.Freed -> "F" | InFlight.Leaked -> "L" | InFlight.Owned -> "O") !st.InFlight.bufs)
+
 let run_note _ = "note"
 
 let handlers : (string * (string list -> string)) list ref =
-  ref [ ("fs", run_fs); ("open", run_open); ("note", run_note); ("codec", run_codec); ("readdev", run_readdev); ("lww", run_lww); ("monitor", run_monitor); ("cache", run_cache); ("migrate", run_migrate); ("conc", run_conc); ("hist", run_hist); ("pins", run_pins) ]
+  ref [ ("fs", run_fs); ("open", run_open); ("note", run_note); ("codec", run_codec); ("readdev", run_readdev); ("lww", run_lww); ("monitor", run_monitor); ("cache", run_cache); ("migrate", run_migrate); ("conc", run_conc); ("hist", run_hist); ("pins", run_pins); ("inflight", run_inflight) ]
 
 
 let () =
